@@ -84,6 +84,12 @@ def render_mut(tok, root):
         return {"o": "exec %s>/dev/null", "i": "exec %s</dev/null", "c": "exec %s>&-"}[p[2]] % p[1]
     if k == "xi":
         return "exit %s" % p[1]
+    if k == "br":
+        return "break"
+    if k == "co":
+        return "continue"
+    if k == "rt":
+        return "return %s" % p[1]
     if k == "fa":
         return "false"
     if k == "tu":
@@ -93,8 +99,36 @@ def render_mut(tok, root):
     raise ValueError(tok)
 
 
+SYNCS = ["all", "spec", "spec2"]
+FRAMES = ["plain", "loop", "func", "errexit"]
+BGW = ["bgw-%s-%s" % (sy, fr) for sy in SYNCS for fr in FRAMES if not (sy == "spec2" and fr == "loop")]
+# what the context script must have recorded of `$?` if the parent's line / loop / function went on
+ST_SHAPE = {"plain": r"\d+", "errexit": r"\d+", "loop": r"1:\d+,2:\d+", "func": r"in:\d+,after:0"}
+
+
+def render_bgw(ctx, ms):
+    """A background job `{ ms; D; } &` collected by every synchronisation the parent has, the parent
+    being at top level, in a loop, in a function, or under `set -e`."""
+    _, sync, frame = ctx.split("-")
+    job = "{ %s; } >$SUBF &" % "; ".join(ms + ['D "$@"'])
+    if sync == "spec2":
+        job += " { exit 5; } &"
+    wait = {"all": "wait", "spec": "wait %%" if frame == "loop" else "wait %1", "spec2": "wait %1 %2"}[sync]
+    if frame == "plain":
+        return "%s %s; echo $? >$STF\n" % (job, wait)
+    if frame == "loop":
+        return "for i in 1 2; do %s %s; echo $i:$? >>$STF; done\n" % (job, wait)
+    if frame == "func":
+        return 'W() { %s %s; echo in:$? >$STF; }; W "$@"; echo after:$? >>$STF; unset -f W\n' % (job, wait)
+    if frame == "errexit":
+        return "set -e; %s %s; echo $? >$STF; set +e\n" % (job, wait)
+    raise ValueError(ctx)
+
+
 def render_ctx(ctx, sub, root):
     ms = [render_mut(t, root) for t in sub]
+    if ctx.startswith("bgw-"):
+        return render_bgw(ctx, ms)
     body = "; ".join(ms + ['D "$@"'])
     if ctx == "paren":
         s = "( %s ) >$SUBF" % body
@@ -400,6 +434,12 @@ def own_filter(c, par, sub, changes, bc, mc):
     return out, rest
 
 
+CF_BODIES = [["xi:7"], ["xi:0"], ["br"], ["co"], ["rt:4"], ["rt:0"], ["fa"], ["tu"], ["as:v1:q"], ["cd:nx"], ["ec:hello"],
+             ["um:027"], ["so:errexit:1", "fa"], ["so:errexit:1", "cd:nx", "as:v1:q"], ["as:v1:q", "xi:7"], ["ec:hello", "br"],
+             ["cd:..", "rt:4"], ["fn:f1:B", "co"], ["al:a1:colon", "sa:z", "xi:3"], ["fa", "rt:2", "ec:hello"]]
+CF_MUTS = ["br", "co", "rt:4", "rt:0", "so:errexit:1", "xi:7"]
+
+
 def is_world(tok):
     return tok.startswith("um:") or tok.startswith("ul:")
 
@@ -436,6 +476,9 @@ def canon_brush(resp, ctxname):
                 if pth in ("~env.entry_count",) or re.fullmatch(r"\+env\.scopes\[0\]\[1\]\.variables\.COPROC(_PID)?", pth) \
                         or re.fullmatch(r"\+open_files\.files\.\d+", pth):
                     continue
+            if ctxname.startswith("bgw-") and ctxname.endswith("-loop") and \
+                    (pth == "~env.entry_count" or re.fullmatch(r"[+~]env\.scopes\[0\]\[1\]\.variables\.i", pth)):
+                continue        # the parent's own loop variable
             key = re.split(r"[.\[]", pth.lstrip("+-~"), 1)[0]
             comps.add(COMP_OF_KEY.get(key, key))
             changes.append("Shell." + pth)
@@ -450,6 +493,9 @@ def canon_brush(resp, ctxname):
         out["w1"] += "/cwd-changed"
     if d["st"] == "none":
         changes.append("the parent did not continue after the subshell")
+    elif ctxname.startswith("bgw-") and not re.fullmatch(ST_SHAPE[ctxname.split("-")[2]], d["st"]):
+        changes.append("the parent did not continue after the subshell: its %s did not go on after the background job "
+                       "was collected (recorded `$?`: %s)" % ({"loop": "loop", "func": "function"}.get(ctxname.split("-")[2], "line"), d["st"]))
     if "err" in d:
         out["err"] = unesc(d["err"])
     return out, changes
@@ -512,6 +558,12 @@ def gen_cases(ctx):
                     cases.append(("pl", "pl", pre, ["tu"] * pos + [m] + ["tu"] * (n - 1 - pos)))
     for a, b in itertools.product(ALPHABET[::3], repeat=2):
         cases.append(("pl2", "pl", PRESETS[3] if (len(a) + len(b)) % 2 else PRESETS[0], [a, b, "tu"][: 2 + (len(a) % 2)]))
+    # background jobs ending through exit / break / continue / return / errexit, collected by `wait`, `wait %N`,
+    # `wait %1 %2`, with the parent at top level, in a loop, in a function, under `set -e`
+    for c in BGW:
+        for body in CF_BODIES:
+            for pre in (PRESETS[0], PRESETS[1]):
+                cases.append(("bgw", c, pre, body))
     # pairs: (mutator, mutator) for one context each, rotating, rich preset
     pairs = list(itertools.product(ALPHABET, repeat=2))
     step = ctx.size(4, 1)
@@ -519,10 +571,12 @@ def gen_cases(ctx):
         cases.append(("exh2", CTXS[i % len(CTXS)], PRESETS[(i // len(CTXS)) % len(PRESETS)], [a, b]))
     rng = ctx.rng
     for _ in range(ctx.size(1500, 12000)):
-        c = rng.choice(CTXS)
+        c = rng.choice(CTXS + BGW[::2] + BGW[1::2][:3])
         pre = [rng.choice(ALPHABET) for _ in range(rng.randint(0, 8))]
         pre = [t for t in pre if not t.startswith("xi:") and not t.startswith("ec:")]   # the parent neither leaves nor prints
         sub = [rng.choice(ALPHABET) for _ in range(rng.randint(1, 8))]
+        if c.startswith("bgw-"):     # the job's body may also end through control flow
+            sub = [rng.choice(CF_MUTS) if rng.random() < 0.3 else t for t in sub]
         cases.append(("rand", c, pre, sub))
     out = []
     for kind, c, par, sub in cases:
